@@ -14,6 +14,7 @@ Require Import Cirbo.Generated.GateTypes.
 Require Import Cirbo.Model.Eval Cirbo.Model.Sem.
 Require Import Cirbo.Proofs.RebuildFacts Cirbo.Proofs.EffectRR Cirbo.Proofs.Pipeline Cirbo.Proofs.EffectMD
                Cirbo.Proofs.EffectMU Cirbo.Proofs.TruthTableFacts Cirbo.Proofs.EffectME Cirbo.Proofs.C18Examples.
+Require Import Cirbo.Generated.PassesGen Cirbo.Generated.PipelineGen Cirbo.Proofs.PassesGen Cirbo.Proofs.PipelineGen.
 
 (* ================= A. pipeline algebra ================= *)
 (* dropping an idempotent pass that equals its predecessor never changes the result: applying a list
@@ -222,3 +223,28 @@ Example C18_example_me :
   Ok [("a", [F; F; T; T]); ("b", [F; T; F; T]); ("na", [T; T; F; F]); ("nb", [T; F; T; F]);
       ("g2", [F; F; F; T]); ("o1", [F; F; T; F]); ("o2", [F; T; F; F])].
 Proof. exact c18_eq_facts. Qed.
+
+(* ================= F. the model is the code ================= *)
+(* the pass algorithms are regenerated from minimization/simplification/*.py on every run (translator T15,
+   Generated/PassesGen.v) and equal the model the theorems above are about, for every circuit: stated once as
+   C03_passes_regenerated (Properties/C03.v, same model, same lemma Proofs/PassesGen.passes_regenerated) and
+   re-exported here for the four `_transform`s and the pipeline part *)
+Theorem C18_passes_regenerated :
+  (forall allow c, gen_RemoveRedundantGates_transform allow c = remove_redundant_gates allow c) /\
+  (forall c, gen_MergeUnaryOperators_transform c = merge_unary_operators c) /\
+  (forall c, gen_MergeDuplicateGates_transform c = merge_duplicate_gates c) /\
+  (forall c, gen_MergeEquivalentGates_transform c = merge_equivalent_gates c) /\
+  (* pipeline machinery (Generated/PipelineGen.v): the __idempotent__ flags, the pre / post transformer lists of the
+     constructors, the reduction loop of linearize_reduce_transformers and cleanup are regenerated as well *)
+  (forall t, gen_is_idempotent t = is_leaf_idempotent t) /\
+  (forall t, (forall ts, t <> TComp ts) ->
+     as_distinct t = linearize (gen_pre_transformers t) ++ [t] ++ linearize (gen_post_transformers t)) /\
+  (forall ts, gen_linearize_reduce_transformers ts = Ok (linearize_reduce ts)) /\
+  (forall c heavy, gen_cleanup c heavy = cleanup c heavy).
+Proof.
+  exact (conj (proj1 passes_regenerated)
+        (conj (proj1 (proj2 passes_regenerated))
+        (conj (proj1 (proj2 (proj2 passes_regenerated)))
+        (conj (proj1 (proj2 (proj2 (proj2 (proj2 (proj2 (proj2 passes_regenerated)))))))
+              pipeline_regenerated)))).
+Qed.
